@@ -47,7 +47,8 @@ func (v c15lVariant) String() string {
 
 func (v c15lVariant) txn(sender, other basics.Address, app basics.AppIndex) *txntest.Txn {
 	if v.Pay > 0 {
-		return &txntest.Txn{Type: protocol.PaymentTx, Sender: sender, Receiver: other, Amount: v.Pay, Note: []byte("c15-fork")}
+		// paid to the application account: funded by the script and never closed by the drawn payments
+		return &txntest.Txn{Type: protocol.PaymentTx, Sender: sender, Receiver: app.Address(), Amount: v.Pay, Note: []byte("c15-fork")}
 	}
 	tx := &txntest.Txn{Type: protocol.ApplicationCallTx, Sender: sender, ApplicationID: app, Note: []byte("c15-fork")}
 	for _, a := range v.Args {
@@ -70,7 +71,8 @@ func c15lOwnBlock(t *rapid.T, w *engcWorld, n *engcNode, prp basics.Address, txs
 	for _, tx := range txs {
 		fillDefaults(w.tb, n.L, ev, tx)
 		if err := ev.TransactionGroup(transactions.WrapSignedTxnsWithAD([]transactions.SignedTxn{tx.SignedTxn()})...); err != nil {
-			t.Fatalf("HARNESS: %s: fork transaction rejected: %v", n.Name, err)
+			// a drawn payment of the shared prefix can have emptied the sender: precondition of the scenario not met
+			t.Skipf("%s: fork transaction rejected: %v", n.Name, err)
 		}
 	}
 	ub, err := ev.GenerateBlock([]basics.Address{prp})
